@@ -61,6 +61,23 @@ func rangeLoops(fn *ssa.Function) []*RangeLoop {
 }
 
 func constInt(v ssa.Value) (int64, bool) {
+	// an integer conversion of a constant is that constant
+	for {
+		cv, isConv := v.(*ssa.Convert)
+		if !isConv {
+			break
+		}
+		if _, isK := cv.X.(*ssa.Const); !isK {
+			if _, isConv2 := cv.X.(*ssa.Convert); !isConv2 {
+				break
+			}
+		}
+		bt, isBasic := cv.Type().Underlying().(*types.Basic)
+		if !isBasic || bt.Info()&types.IsInteger == 0 {
+			break
+		}
+		v = cv.X
+	}
 	c, ok := v.(*ssa.Const)
 	if !ok || c.Value == nil || c.Value.Kind() != constant.Int {
 		return 0, false
